@@ -188,7 +188,7 @@ func checkC05(c *Ctx, p *Prog, r *Result) {
 			if cal.Name != "fdo/cbor.Encoder.Encode" || !strings.HasPrefix(p.FuncName(call.Parent()), "fdo/http.") {
 				return false
 			}
-			return f.matcherFor(call.Parent()).Prov(allArgs(call)[1]).Has("call:fdo/protocol.Responder.Respond")
+			return f.matcherFor(call.Parent()).Prov(allArgs(call)[1]).HasLocal("call:fdo/protocol.Responder.Respond")
 		})
 		r.requireAtSites(f, "C05.server-out", enc, []Atom{"tunnel-out"})
 		r.rule("C05.server-out-value", "the value encoded into the response body derives from Session.Encrypt (the ciphertext, not the plaintext, is what is written)")
